@@ -47,7 +47,8 @@ TRUSTED_EXTRA = ['NumPy kernels np.sort/np.argmax/np.argmin/np.median/advanced i
 # ------------------------------------------------------------------ value pools
 F_VIS = [-2., -1.5, -1., -0.5, -0.25, 0., 0., 0.25, 0.5, 0.75, 1., 1., 1.5, 2., 3., 4.]
 F_HID_BENIGN = [0.5, 1., 2., 0.25, 3.]
-F_HID_ADV = [0., -1., 1024., -1024., 800., 2., -2., 1.5, -0.5, 710., 1. / 1024, -3., 1e-3, 0.]
+F_HID_ADV = [0., -1., 1024., -1024., 800., 2., -2., 1.5, -0.5, 710., 1. / 1024, -3., 1e-3, 0., -0.0, 1., 0.5,
+             709.782712893384, 709.7827128933841, -1.0000000000000002, 1.0000000000000002, 0., -0.0, 2.5, -7.5]
 I_HID_ADV = [0, -1, 10 ** 6, -10 ** 6, 7, -7, 3, 2 ** 40, -2 ** 40, 1, 2]
 SHAPES = [[], [1], [2], [3], [4], [2, 3], [3, 2], [1, 3], [2, 1], [3, 3], [0], [2, 0], [2, 2, 2], [5]]
 
@@ -412,9 +413,80 @@ SINGLE_OPS = ([(n, []) for n in U_FF] + [('pow', [e]) for e in POWS]
               + [('clip', [-1., 1., True]), ('clip', [0., 0.5, False])])
 
 
+def opt_ops(rng):
+    """public element-wise / reducing methods with their OPTION values"""
+    tf = lambda: rng.random() < 0.5
+    return [('sign_o', [tf(), tf()]), ('sign_o', [False, False]), ('sign_o', [False, True]),
+            ('int_o', [rng.choice([None, 2, 3]), tf(), tf(), tf()]), ('round', [rng.choice([0, 1])]),
+            ('red_o', [rng.choice(['max', 'min', 'argmax', 'argmin', 'median', 'sum', 'mean']), None, tf(), rng.choice([None, -99.])]),
+            ('red_o', [rng.choice(['max', 'min', 'median', 'sum', 'mean']), 0, tf(), rng.choice([None, -99.])]),
+            ('fn_nr', [rng.choice(['abs', 'sin', 'cos', 'tan', 'sqrt', 'log', 'exp', 'arcsin', 'arccos', 'arctan', 'reciprocal'])]),
+            ('as_builtin', [rng.choice([None, -99.])]), ('as_int', []), ('as_float', []), ('as_numeric', []), ('frac', []),
+            ('int', []), ('masked_single', []), ('zero', []), ('identity', []), ('without_derivs', []), ('unmasked_count', []),
+            ('mask_where_eq_o', [rng.choice([0., 1., -1.]), rng.choice([None, 7.]), tf()]),
+            ('mw_between_o', [rng.choice([-1., 0.]), rng.choice([0.5, 1.]), tf(), rng.choice([None, 7.]), tf()]),
+            ('mw_outside_o', [rng.choice([-1., 0.]), rng.choice([0.5, 1.]), tf(), rng.choice([None, 7.]), tf()]),
+            ('clip_o', [rng.choice([-1., 0., None]), rng.choice([0.5, 1., None]), tf(), tf()])]
+
+
+DERIVE = [lambda v, r: ['addc', [r.choice([1., 0., -2.])], v], lambda v, r: ['subc', [1.], v], lambda v, r: ['mulc', [r.choice([3., 1., -1.])], v],
+          lambda v, r: ['rmulc', [2.], v], lambda v, r: ['divc', [2.], v], lambda v, r: ['neg', [], v], lambda v, r: ['pos', [], v],
+          lambda v, r: ['abs', [], v], lambda v, r: ['sin', [], v], lambda v, r: ['cos', [], v], lambda v, r: ['wod', [], v],
+          lambda v, r: ['sqrt', [], v], lambda v, r: ['copy', [], v], lambda v, r: ['as_float', [], v], lambda v, r: ['sign', [], v],
+          lambda v, r: ['expand_mask', [], v], lambda v, r: ['reshape', [None], v], lambda v, r: ['frac', [], v]]
+
+
+def gen_twonames(rng, shape):
+    """b = f(a) (not in place); assign into / operate in place on ONE of the two names; observe the OTHER (and both)"""
+    g = Gen(rng, shape, derivs=rng.random() < 0.3)
+    a, _, s = g.leaf('F', list(shape))
+    n = len(g.env)
+    f = rng.choice(DERIVE)(a, rng)
+    if f[0] == 'reshape':
+        f = ['reshape', [list(s)], a]
+    prog = []
+    if rng.random() < 0.4:
+        prog.append(['query', rng.choice(QUERIES)(a)])
+    prog.append(['let', f])
+    leaves = len(g.env)
+
+    def finish_env():
+        return g.env
+
+    # the index / right-hand side / operand leaves must be created BEFORE the derived slot number is known
+    i, _, _ = g.leaf('I', rng.choice([[], [2], [3]]), axis_len=max(s[0], 1))
+    bidx, _, _ = g.leaf('B', s[:1])
+    rhs_leaf, _, _ = g.leaf('F', [])
+    y, _, _ = g.leaf('F', rng.choice([list(s), []]))
+    b = ['v', len(g.env)]                      # slot of the derived object (after all leaves)
+    target, other = (b, a) if rng.random() < 0.6 else (a, b)
+    for _ in range(rng.randint(1, 2)):
+        r = rng.random()
+        if r < 0.6:
+            idx = i if rng.random() < 0.6 else bidx
+            rhs = rng.choice([99., 0.5, rhs_leaf, rhs_leaf])
+            prog.append(['set', target[1], 'i', idx, rhs])
+        else:
+            prog.append(['iop', rng.choice(IOPS_F[:4]), target[1], rng.choice([y, 2., y])])
+        for _ in range(rng.randint(1, 3)):
+            prog.append(['query', rng.choice(QUERIES)(rng.choice([other, other, target]))])
+    return mk_prog(prog, g.env, 'twonames:' + f[0])
+
+
 def gen_cases(rng, tier):
     thorough = tier == 'thorough'
     cases = []
+    # 1b. the option values of the public element-wise and reducing methods
+    for _ in range(8 if thorough else 2):
+        for shape in SHAPES:
+            for name, params in opt_ops(rng):
+                g = Gen(rng, shape)
+                x, _, _ = g.leaf('F', list(shape))
+                cases.append(mk_case([name, params, x], g.env, 'o:' + name))
+            for name, params in (('to_scalar', [rng.randint(0, 2)]), ('vint', []), ('as_int', []), ('fn_nr', ['norm'])):
+                g = Gen(rng, shape, derivs=False)
+                x, _, _ = g.leaf('V', list(shape))
+                cases.append(mk_case([name, params, x], g.env, 'o:V' + name))
     # 1. every unary operation on every shape family, leaves with/without derivatives
     reps = 6 if thorough else 1
     for _ in range(reps):
@@ -495,6 +567,9 @@ def gen_cases(rng, tier):
             if shape:
                 cases.append(gen_setitem(rng, shape))
             cases.append(gen_history(rng, shape))
+            if shape and 0 not in shape:
+                cases.append(gen_twonames(rng, shape))
+                cases.append(gen_twonames(rng, shape))
     # 6. compositions: expression trees to depth 3
     ntrees = 40000 if thorough else 9000
     for k in range(ntrees):
@@ -545,8 +620,10 @@ def oracle(case):
         prev = 'start'
         for k, ((la, oa), (lb, ob)) in enumerate(zip(ra, rb)):
             if oa != ob:
-                after = [l for l, _ in ra[:k] if not l.startswith('query')]
-                sig = 'leak:prog:%s:after-%s:%s' % (la, after[-1] if after else 'none', field_diff(oa, ob))
+                after = [l for l, _ in ra[:k] if not l.startswith('query') and not l.startswith('let')]
+                lets = [l[4:] for l, _ in ra if l.startswith('let:')]
+                head = 'leak:prog2:%s' % lets[0] if lets else 'leak:prog'
+                sig = '%s:%s:after-%s:%s' % (head, la, after[-1] if after else 'none', field_diff(oa, ob))
                 return (sig, 'hidden values change what statement %d (%s) of the program %s shows: run A gives %s, run B (storage '
                         'under the masks overwritten) gives %s' % (k, la, C.sx(sxable(case['prog']))[:400],
                                                                  C.sx(sxable(oa))[:300], C.sx(sxable(ob))[:300]))
@@ -562,6 +639,8 @@ def oracle(case):
             sub = subtree(case['tree'], pa)
             inner = [c[0] for c in sub[2:] if c[0] != 'v']
             sig = 'leak:%s:%s' % (opa, field_diff(oa, ob))
+            if opa not in ('clip', 'clip_o') and any(o in ('clip', 'clip_o') for o in O.tree_ops(sub)):
+                sig += '@clip'          # the difference is the consequence of a clip() below this node
             return (sig, 'hidden values change the observable result of %s (params %s, inner ops %s): run A gives %s, run B '
                     '(storage under the masks overwritten) gives %s' % (opa, sub[1], inner, C.sx(sxable(oa))[:300], C.sx(sxable(ob))[:300]))
     if len(na) != len(nb):
